@@ -139,6 +139,9 @@ FRAGMENTS = [
 
 #: fragments that make sense for any rank (run on 1-D, 2-D and 3-D inputs)
 FRAGMENTS_ANY = [
+    "nz = torch.nonzero(t > 0, as_tuple=False)\nr = nz.sum() + len(nz)",
+    "acc = torch.zeros(1)\nfor idx in torch.nonzero(t > 0, as_tuple=False):\n    pos = tuple(idx.tolist())\n    acc = acc + t[pos]\nr = acc",
+    "w = torch.where(t > 0)\nr = len(w) + w[0].sum()",
     "r = t.sum().view(1) + t.flatten()[:1]",
     "r = t.flatten()[0].reshape(1, 1) * t.flatten()[:2]",
     "r = t.mean().view(-1)",
